@@ -19,4 +19,4 @@ cp $REPO/go.sum $D/go.sum
 cd $D
 echo "== goa gen"; ./goa gen try/design 2>&1 | tail -${TAIL:-15}
 echo "== goa example"; ./goa example try/design 2>&1 | tail -5
-cp -r gen /var/tmp/d1/gen 2>/dev/null; echo "== go build"; go build ./... 2>&1 | head -${TAIL:-15}
+cp -r . /var/tmp/d1/out 2>/dev/null; echo "== go build"; go build ./... 2>&1 | head -${TAIL:-15}
